@@ -141,10 +141,16 @@ def gen_aggregator(repo, report):
         fn = find_func(cls, "__init__")
         body = [s for s in fn.body if not is_docstring(s)]
         want = ["self.quantile = quantile", "if self.quantile < 0 or self.quantile > 1:\n    verif.util.error('Quantile must be between 0 and 1')"]
+        want2 = ["self.quantile = quantile", "if not (self.quantile >= 0 and self.quantile <= 1):\n    verif.util.error('Quantile must be between 0 and 1')"]
         got = [ast.unparse(s) for s in body]
+        if got == want2:
+            # accepted exactly when both comparisons hold (a NaN level fails them and is rejected)
+            return ("(* the constructor rejects every level that is not inside [0, 1] (error exit), NaN included *)\n"
+                    "Definition quantile_level_ok (quantile : T) : bool :=\n"
+                    "  andb (n_leb Ops %s quantile) (n_leb Ops quantile %s).\n" % (lit(0), lit(1)))
         if got != want:
             raise Unsupported("Quantile.__init__ changed: %r" % got)
-        return ("(* the constructor rejects levels outside [0, 1] (error exit) *)\n"
+        return ("(* the constructor rejects levels outside [0, 1] (error exit); a NaN level passes both comparisons *)\n"
                 "Definition quantile_level_ok (quantile : T) : bool :=\n"
                 "  negb (orb (n_ltb Ops quantile %s) (n_ltb Ops %s quantile)).\n" % (lit(0), lit(1)))
     out += T.emit("quantile_level_ok", "verif/aggregator.py:Quantile.__init__", qinit)
